@@ -40,6 +40,13 @@ def gen(rng, tier, idx):
     npts = [rng.randint(5, 8), rng.randint(5, 8), rng.randint(7, 9), rng.randint(max(5, vdeg + 2), 9)]
     ckw = phys.gen_constants(rng, amplified=True, npts=npts)
     ckw['splineDegrees'] = [3, 3, 3, vdeg]
+    if rng.random() < 0.2:
+        # a quintic theta spline under the parallel gradient (r then of the general kind too: the pipeline's 2-D
+        # poloidal spline wants both of one kind); any degree along z
+        ckw['splineDegrees'] = [rng.choice([2, 4, 5]), 5, rng.choice([2, 3, 4, 5]), vdeg]
+        for d in range(3):
+            npts[d] = max(npts[d], ckw['splineDegrees'][d] + 3)
+        ckw['npts'] = [int(x) for x in npts]
     # with the default vMax = 7.32 the equilibrium is ~1e-12 at the velocity bounds and the fEq fill value
     # would be invisible: cut the velocity domain (and heat the ions) so that it is O(1e-2..1e-1) there
     vmax = rng.choice([7.32, 3.0, 2.0, 1.5])
@@ -224,6 +231,8 @@ def run(case, tape=None):
         probes['iota_nonzero'] = 1
     if case.get('again'):
         probes['second_step_new_potential'] = 1
+    if ckw['splineDegrees'][1] != 3:
+        probes['theta_degree_5'] = 1
     if ckw.get('vMax', 7.32) < 7:
         probes['short_velocity_domain'] = 1
     if ckw.get('vMin') is not None and ckw['vMin'] != -ckw.get('vMax', 7.32):
@@ -237,7 +246,7 @@ def shrink(case):
             yield dict(case, grids=[g], P=g[0] * g[1])
     if case['edge'] != 'null':
         yield dict(case, edge='null')
-    if case['ckw']['splineDegrees'][3] != 3:
+    if case['ckw']['splineDegrees'] != [3, 3, 3, 3]:
         c = dict(case)
         c['ckw'] = dict(case['ckw'], splineDegrees=[3, 3, 3, 3])
         yield c
